@@ -43,7 +43,7 @@ extern "C" int LLVMFuzzerTestOneInput(const uint8_t *data, size_t size) {
 
 	// a multi-call encoder may be told new LZMA2 lc/lp/pb in the middle of the data (LZMA_SYNC_FLUSH, then lzma_filters_update):
 	// still "an encoder configuration the library accepts", and the whole output must still decode to the whole input
-	const bool mid_update = (g.entry == ec::E_STREAM || g.entry == ec::E_RAW) && !g.use_preset && g.last_id() == LZMA_FILTER_LZMA2 && !g.has_bcj && in.size() >= 2 && c.rare(24);
+	const bool mid_update = (g.entry == ec::E_STREAM || g.entry == ec::E_RAW) && !g.use_preset && g.last_id() == LZMA_FILTER_LZMA2 && !g.has_bcj && in.size() >= 2 && c.rare(64);
 	ec::Encoded E;
 	if (mid_update) {
 		lzma_stream s = LZMA_STREAM_INIT; s.allocator = AL();
